@@ -126,12 +126,14 @@ func (f Float) MarshalJSON() ([]byte, error) {
 	num := []byte{}
 	num = strconv.AppendFloat(num, float64(f), 'E', -1, 64)
 
-	// When decimal place is missing, add it. This only happens
-	// when the number is 0.
-	if num[1] != '.' {
-		num = append(num[0:3], num[1:]...)
-		num[1] = '.'
-		num[2] = '0'
+	// When decimal place is missing, add it. This happens when the
+	// mantissa has a single digit, e.g. "0E+00" or "-1E+05".
+	p := 1 // position expected for the decimal point
+	if num[0] == '-' {
+		p = 2
+	}
+	if num[p] != '.' {
+		num = append(num[:p], append([]byte(".0"), num[p:]...)...)
 	}
 
 	// Split into two parts
